@@ -175,7 +175,7 @@ m('C11a','C11','unlock does not clip the amount to the holding', ('x/locking/kee
 	}
 	updatedLocking := validator.Locking.Sub(sdktypes.NewCoin(tokenAddr, amount))
 	lockingAmount = lockingAmount.Sub(amount)
-	defer func() { amount = released }()'''))
+	amount = released'''))
 m('C11b','C11','downtime slash not added to the slashed total', ('x/locking/keeper/votes.go','if err := k.Slashed.Set(sdkctx, locking.Denom, slashed.Add(amount)); err != nil {','if err := k.Slashed.Set(sdkctx, locking.Denom, slashed); err != nil {'))
 m('C12a','C12','no halving', ('x/locking/keeper/reward.go','if halvings := sdkctx.BlockHeight() / param.HalvingInterval; halvings > 0 {','if halvings := sdkctx.BlockHeight() / param.HalvingInterval; false && halvings > 0 {'))
 m('C12b','C12','Claim does not zero the gas reward', ('x/locking/keeper/msg_claim.go','		validator.GasReward = math.ZeroInt()\n',''))
